@@ -152,6 +152,61 @@ fn phase_histories(spec: &Spec, k: usize, phases: usize, st: &mut Stats, sink: &
     }
 }
 
+/// f64 scale families (a run past 2^16 updates, a window past 2^8, a window past 2^16 where an update
+/// costs O(1)): at the boundary steps the view that has seen the whole history must agree with a
+/// fresh instance fed only the last K values. Behaviour keyed on the number of updates (periodic
+/// re-synchronisation, compaction, counters that wrap) is memory of something older than the window.
+fn scale_fresh(spec: &Spec, k: usize, len: usize, at: &std::collections::BTreeSet<usize>, st: &mut Stats, sink: &Sink) {
+    st.configs += 1;
+    let value_like = matches!(spec.kind, Kind::Sma | Kind::Cumulative | Kind::Alma | Kind::Pfe);
+    for (name, hist) in scale_drivers(len, spec.n.max(1)) {
+        let r = crate::explore::guard(|| {
+            let mut a = build::<f64>(spec);
+            for i in 0..hist.len() {
+                a.update(hist[i]);
+                if i + 1 < k || !at.contains(&i) {
+                    continue;
+                }
+                let last_k = &hist[i + 1 - k..=i];
+                if holding::<f64>(spec, last_k) {
+                    continue;
+                }
+                let mut f = build::<f64>(spec);
+                for x in last_k {
+                    f.update(*x);
+                }
+                let (g, w) = (a.last(), f.last());
+                let scale = 1.0 + max_abs(last_k).max(w.map(|x| x.abs()).unwrap_or(0.0));
+                let tol = if value_like { 1e-9 * (1.0 + max_abs(&hist[..=i])) } else { 1e-9 * scale };
+                let ok = match (g, w) {
+                    (None, None) => true,
+                    (Some(x), Some(y)) => x.is_finite() && (x - y).abs() <= tol,
+                    _ => false,
+                };
+                if !ok {
+                    return Some((i, g, w));
+                }
+            }
+            None
+        });
+        st.transitions += hist.len() as u64 + (at.len() * k) as u64;
+        st.states += hist.len() as u64;
+        st.oracle_evals += at.len() as u64;
+        st.traces += 1;
+        match r {
+            Ok(Some((i, g, w))) => {
+                sink.push(Violation::new("C03", spec, "prefix-independence", "f64", &hist[..=i], format!("driver '{}': after {} updates the view reports {:?} but a fresh instance fed only its last K={} values reports {:?}", name, i + 1, g, k, w)));
+                return;
+            }
+            Ok(None) => {}
+            Err(m) => {
+                sink.push(Violation::new("C03", spec, "panicked", "f64", &hist, m));
+                return;
+            }
+        }
+    }
+}
+
 /// f64: a prefix of huge magnitude (1e15..1e17) before a suffix of ordinary values. A value-like
 /// output may keep rounding residue proportional to the largest magnitude seen (the running sums of
 /// Sma / Alma / Cumulative do); a bounded indicator or ratio has no such excuse: its scale does not
@@ -475,6 +530,30 @@ pub fn run(ctx: &Ctx) -> CheckOutput {
                 large_window::<Q>(&spec, k, sd, &mut st, &sink);
                 JobOut { stats: st, viols: sink.take(), samples: vec![json!({"explorer":"prefix x base x TREE(suffix)","scalar":"Q","view":spec.name(),"K":k,"suffix_depth":sd})] }
             }));
+        }
+    }
+    // scale families against a fresh instance
+    {
+        let kinds: Vec<Spec> = configs(3).into_iter().filter(|(s, _)| s.n == 3 && (s.kind != Kind::Pfe || s.ch[1].n == 2)).map(|(s, _)| s).collect();
+        for base in kinds {
+            let kind = base.kind;
+            let k_of = move |n: usize| match kind {
+                Kind::Rsi | Kind::MyRsi | Kind::Roc => n + 1,
+                Kind::Alma => 2 * n,
+                Kind::Pfe => n + 1,
+                _ => n,
+            };
+            let o1 = matches!(kind, Kind::Sma | Kind::Cumulative | Kind::Roc | Kind::BinaryEntropy);
+            for (label, n, len, at) in scale_families(&k_of, quick, o1, kind == Kind::Net) {
+                let spec = Spec { n, ..base.clone() };
+                let k = k_of(n);
+                jobs.push(Box::new(move || {
+                    let mut st = Stats::default();
+                    let sink = Sink::new();
+                    scale_fresh(&spec, k, len, &at, &mut st, &sink);
+                    JobOut { stats: st, viols: sink.take(), samples: vec![json!({"explorer":"LONG (sparse oracle)","scalar":"f64","view":spec.name(),"K":k,"family":label,"steps":len,"judged_steps":at.len(),"drivers":4})] }
+                }));
+            }
         }
     }
     let o = run_jobs(jobs, ctx.seed);
